@@ -137,10 +137,30 @@ func NewMemoryDatabase(cfg *MemoryDatabaseCfg) (MemoryDatabase, error) {
 		familyTime:    cfg.FamilyTime,
 		name:          cfg.Name,
 		timeSeriesIDs: roaring.New(),
-		createdTime:   fasttime.UnixNano(),
+		createdTime:   nextCreatedTime(),
 		statistics:    metrics.NewMemDBStatistics(cfg.Name),
 	}
 	return db, nil
+}
+
+// lastCreatedTime is the create time handed to the previous memory database.
+var lastCreatedTime atomic.Int64
+
+// nextCreatedTime returns the create time(ns) of a new memory database, strictly increasing:
+// the create time is the key of the family level slot range in the shard's time series index,
+// and the clock(fasttime) only ticks every few milliseconds, so two memory databases
+// which are created in the same tick must not get the same value.
+func nextCreatedTime() int64 {
+	for {
+		last := lastCreatedTime.Load()
+		now := fasttime.UnixNano()
+		if now <= last {
+			now = last + 1
+		}
+		if lastCreatedTime.CompareAndSwap(last, now) {
+			return now
+		}
+	}
 }
 
 // MarkReadOnly marks memory database cannot writable.
